@@ -515,7 +515,7 @@ class Interp:
             return text
         if "::promoted[" in text and "::<" in text:
             # promoted constant of a generic function: the definition is printed without the type arguments
-            stripped = re.sub(r"::<[^<>]*>", "", text)
+            stripped = re.sub(r"::<[A-Za-z0-9_, ]*>", "", text)  # plain type parameters only (not `::<impl at ..>`)
             r = self.resolve_const(stripped) if stripped != text else None
             if r is not None:
                 return r
